@@ -17,6 +17,7 @@ package validate
 import (
 	"context"
 	"fmt"
+	"math"
 	"reflect"
 	"strings"
 	"unicode/utf8"
@@ -327,11 +328,19 @@ func MaximumNativeType(path, in string, val interface{}, maximum float64, exclus
 	switch kind { //nolint:exhaustive
 	case reflect.Int, reflect.Int8, reflect.Int16, reflect.Int32, reflect.Int64:
 		value := valueHelp.asInt64(val)
+		if maximum != math.Trunc(maximum) {
+			// a non-integral bound must not be truncated: compare as general numbers
+			return Maximum(path, in, float64(value), maximum, exclusive)
+		}
 		return MaximumInt(path, in, value, int64(maximum), exclusive)
 	case reflect.Uint, reflect.Uint8, reflect.Uint16, reflect.Uint32, reflect.Uint64:
 		value := valueHelp.asUint64(val)
 		if maximum < 0 {
 			return errors.ExceedsMaximum(path, in, maximum, exclusive, val)
+		}
+		if maximum != math.Trunc(maximum) {
+			// a non-integral bound must not be truncated: compare as general numbers
+			return Maximum(path, in, float64(value), maximum, exclusive)
 		}
 		return MaximumUint(path, in, value, uint64(maximum), exclusive)
 	case reflect.Float32, reflect.Float64:
@@ -357,11 +366,19 @@ func MinimumNativeType(path, in string, val interface{}, minimum float64, exclus
 	switch kind { //nolint:exhaustive
 	case reflect.Int, reflect.Int8, reflect.Int16, reflect.Int32, reflect.Int64:
 		value := valueHelp.asInt64(val)
+		if minimum != math.Trunc(minimum) {
+			// a non-integral bound must not be truncated: compare as general numbers
+			return Minimum(path, in, float64(value), minimum, exclusive)
+		}
 		return MinimumInt(path, in, value, int64(minimum), exclusive)
 	case reflect.Uint, reflect.Uint8, reflect.Uint16, reflect.Uint32, reflect.Uint64:
 		value := valueHelp.asUint64(val)
 		if minimum < 0 {
 			return nil
+		}
+		if minimum != math.Trunc(minimum) {
+			// a non-integral bound must not be truncated: compare as general numbers
+			return Minimum(path, in, float64(value), minimum, exclusive)
 		}
 		return MinimumUint(path, in, value, uint64(minimum), exclusive)
 	case reflect.Float32, reflect.Float64:
@@ -387,9 +404,17 @@ func MultipleOfNativeType(path, in string, val interface{}, multipleOf float64) 
 	switch kind { //nolint:exhaustive
 	case reflect.Int, reflect.Int8, reflect.Int16, reflect.Int32, reflect.Int64:
 		value := valueHelp.asInt64(val)
+		if multipleOf != math.Trunc(multipleOf) {
+			// a non-integral factor must not be truncated: check as general numbers
+			return MultipleOf(path, in, float64(value), multipleOf)
+		}
 		return MultipleOfInt(path, in, value, int64(multipleOf))
 	case reflect.Uint, reflect.Uint8, reflect.Uint16, reflect.Uint32, reflect.Uint64:
 		value := valueHelp.asUint64(val)
+		if multipleOf != math.Trunc(multipleOf) {
+			// a non-integral factor must not be truncated: check as general numbers
+			return MultipleOf(path, in, float64(value), multipleOf)
+		}
 		return MultipleOfUint(path, in, value, uint64(multipleOf))
 	case reflect.Float32, reflect.Float64:
 		fallthrough
